@@ -33,7 +33,13 @@ def main():
     shutil.copytree(os.path.join(ROOT, "coq"), coq, symlinks=True)
     sh("coq_makefile -f _CoqProject -o Makefile", cwd=coq)
     rc, o = sh("make -j16 2>&1 | tail -3", cwd=coq)        # the unchanged tree builds
-    base = dict((v, open(os.path.join(coq, "theories", v)).read()) for _, v in GENS)
+    os.makedirs(os.path.join(tmp, "ocaml"), exist_ok=True)       # Extract.v writes ../ocaml/model.ml
+
+    def body(path):
+        # without the header line, which names the repository the file was generated from
+        return "".join(open(path).readlines()[1:])
+    base = dict((v, body(os.path.join(coq, "theories", v))) for _, v in GENS)
+    orig = dict((v, open(os.path.join(coq, "theories", v)).read()) for _, v in GENS)
     out = {}
     try:
         for name in names:
@@ -51,11 +57,15 @@ def main():
                 env = dict(os.environ, VERIF_REPO=wt, PYTHONPATH="")
                 for g, v in GENS:
                     dst = os.path.join(coq, "theories", v)
-                    rc, o = sh("/venv/bin/python %s %s" % (os.path.join(HERE, g), dst), env=env)
+                    new = dst + ".new"
+                    rc, o = sh("/venv/bin/python %s %s" % (os.path.join(HERE, g), new), env=env)
                     if rc != 0:
                         res["refused"].append(g)
-                    elif open(dst).read() != base[v]:
+                    elif body(new) != base[v]:
                         res["changed"].append(v)
+                        shutil.copy(new, dst)
+                    if os.path.exists(new):
+                        os.remove(new)
                 if res["changed"]:
                     rc, o = sh("make -k -j16 2>&1 | grep -B1 -A6 '^Error\\|Error:' | head -60", cwd=coq)
                     for ln in o.split("\n"):
@@ -68,8 +78,8 @@ def main():
                 # restore the generated files of the unchanged tree (and their timestamps' consequences: make rebuilds them)
                 for _, v in GENS:
                     dst = os.path.join(coq, "theories", v)
-                    if open(dst).read() != base[v]:
-                        open(dst, "w").write(base[v])
+                    if open(dst).read() != orig[v]:
+                        open(dst, "w").write(orig[v])
                 if res["changed"]:
                     sh("make -j16 2>&1 | tail -1", cwd=coq)
             out[name] = res
